@@ -669,8 +669,10 @@ Proof.
   { intros cols Hm. apply mk_tables_built in Hm. destruct Hm as [Hb ->]. cbn.
     rewrite sort_values_length. repeat split; try reflexivity. assumption. }
   destruct (sort_values (d_consts d)) as [|first rest] eqn:Es; [discriminate|].
+  destruct (existsb (fun v => reserved_name o (g_name v)) (first :: rest)); [discriminate|].
   destruct (o_ci o && negb (str_nodupb (map (fun v => to_lower (g_name v)) (first :: rest)))); [discriminate|].
   destruct (o_notraits o); [apply (Hmk _ H)|].
+  destruct (existsb (fun v => existsb (fun c => reserved_cell_var (cl_var c)) (g_cells v)) (first :: rest)); [discriminate|].
   destruct (first_columns d o first (g_cells first)) as [cols0| | |]; try discriminate.
   destruct (Nat.eqb (length cols0) 0).
   - destruct (forallb _ _); [apply (Hmk _ H)|discriminate].
@@ -964,7 +966,7 @@ Lemma ci_collision_rejected : forall d o, o_ci o = true -> sort_values (d_consts
   str_nodupb (map (fun v => to_lower (g_name v)) (sort_values (d_consts d))) = false -> gen d o = GenErr.
 Proof.
   intros d o Hci Hne Hdup. unfold gen. destruct (sort_values (d_consts d)) as [|first rest]; [contradiction|].
-  rewrite Hci, Hdup. reflexivity.
+  rewrite Hci, Hdup. destruct (existsb _ (first :: rest)); reflexivity.
 Qed.
 
 (* any result of Go's unstable sort.Sort on the collected constants *)
@@ -1047,6 +1049,281 @@ Proof. exists abc_consts, 1. exact dedup_orig_abc. Qed.
 
 (* ================================================================== Part 4: codecs (C05) *)
 
+(* ---- generic facts about the skeleton interpreter *)
+Lemma try_with_none : forall P l, (forall x, In x l -> P x = None) -> try_with P l = None.
+Proof.
+  induction l as [|x r IH]; intros H; simpl; [reflexivity|].
+  rewrite (H x) by (left; reflexivity). apply IH. intros y Hy. apply H. right. assumption.
+Qed.
+Lemma try_with_app : forall P a b,
+  try_with P (a ++ b) = match try_with P a with Some z => Some z | None => try_with P b end.
+Proof.
+  induction a as [|x r IH]; intros b; simpl; [reflexivity|]. destruct (P x); [reflexivity|apply IH].
+Qed.
+Lemma try_with_ext : forall P Q l, (forall x, P x = Q x) -> try_with P l = try_with Q l.
+Proof. induction l as [|x r IH]; intros H; simpl; [reflexivity|]. rewrite H, IH by assumption. reflexivity. Qed.
+Lemma run_steps_ext : forall P Q t v sk, (forall x, P x = Q x) -> run_steps P t v sk = run_steps Q t v sk.
+Proof.
+  intros P Q t v sk H. induction sk as [|st r IH]; [reflexivity|].
+  destruct st; cbn [run_steps]; rewrite ?IH, ?(try_with_ext P Q _ H); reflexivity.
+Qed.
+Lemma skel_attempts_cons : forall t v st r, skel_attempts t v (st :: r) = step_dyns t v st ++ skel_attempts t v r.
+Proof. reflexivity. Qed.
+Lemma skel_attempts_app : forall t v a b, skel_attempts t v (a ++ b) = skel_attempts t v a ++ skel_attempts t v b.
+Proof. intros. unfold skel_attempts. apply flat_map_app. Qed.
+(* on a document that is not the literal null a decoder is "first successful Parse among its attempts" *)
+Lemma run_steps_attempts : forall P t v sk, dv_null v = false ->
+  run_steps P t v sk = try_with P (skel_attempts t v sk).
+Proof.
+  intros P t v sk Hnn. induction sk as [|st r IH]; [reflexivity|].
+  rewrite skel_attempts_cons, try_with_app, <- IH.
+  destruct st; cbn [run_steps]; try reflexivity. rewrite Hnn. reflexivity.
+Qed.
+Lemma run_steps_none : forall P t v sk, (forall x, In x (skel_attempts t v sk) -> P x = None) ->
+  run_steps P t v sk = None.
+Proof.
+  intros P t v sk. induction sk as [|st r IH]; intros H; [reflexivity|].
+  rewrite skel_attempts_cons in H.
+  assert (Hr : run_steps P t v r = None) by (apply IH; intros x Hx; apply H; apply in_or_app; right; assumption).
+  assert (Hs : try_with P (step_dyns t v st) = None)
+    by (apply try_with_none; intros x Hx; apply H; apply in_or_app; left; assumption).
+  destruct st; cbn [run_steps]; rewrite ?Hs, ?Hr; try reflexivity. destruct (dv_null v); reflexivity.
+Qed.
+Lemma run_steps_null : forall P t v sk, null_checked sk = true -> dv_null v = true -> run_steps P t v sk = None.
+Proof.
+  intros P t v sk H Hn. destruct sk as [|st r]; [discriminate|]. destruct st; try discriminate.
+  cbn [run_steps]. rewrite Hn. reflexivity.
+Qed.
+
+(* ---- decidable equalities of the skeleton language *)
+Lemma tkind_eqb_eq : forall a b, tkind_eqb a b = true -> a = b.
+Proof. intros [] []; simpl; intro H; try discriminate; reflexivity. Qed.
+Lemma codec_eqb_eq : forall a b, codec_eqb a b = true -> a = b.
+Proof. intros [] []; simpl; intro H; try discriminate; reflexivity. Qed.
+Lemma fam_eqb_eq : forall a b, fam_eqb a b = true -> a = b.
+Proof.
+  intros [k c|c] [k' c'|c']; simpl; intro H; try discriminate.
+  - apply andb_true_iff in H. destruct H as [H1 H2]. apply tkind_eqb_eq in H1. apply codec_eqb_eq in H2. congruence.
+  - apply codec_eqb_eq in H. congruence.
+Qed.
+Lemma opt_fam_eqb_eq : forall a b, opt_fam_eqb a b = true -> a = b.
+Proof. intros [a|] [b|]; simpl; intro H; try discriminate; [apply fam_eqb_eq in H; congruence|reflexivity]. Qed.
+Lemma src_eqb_eq : forall a b, src_eqb a b = true -> a = b.
+Proof. intros [] []; simpl; intro H; try discriminate; reflexivity. Qed.
+Lemma conv_eqb_eq : forall a b, conv_eqb a b = true -> a = b.
+Proof. intros [] []; simpl; intro H; try discriminate; reflexivity. Qed.
+Lemma attempt_eqb_eq : forall a b, attempt_eqb a b = true -> a = b.
+Proof.
+  intros [f c] [f' c']. unfold attempt_eqb. simpl. intro H. apply andb_true_iff in H. destruct H as [H1 H2].
+  apply opt_fam_eqb_eq in H1. apply conv_eqb_eq in H2. congruence.
+Qed.
+Lemma list_eqb_eq : forall {A} (eqb : A -> A -> bool), (forall x y, eqb x y = true -> x = y) ->
+  forall a b, list_eqb eqb a b = true -> a = b.
+Proof.
+  intros A eqb He. induction a as [|x a IH]; intros [|y b] H; simpl in H; try discriminate; [reflexivity|].
+  apply andb_true_iff in H. destruct H as [H1 H2]. apply He in H1. apply IH in H2. congruence.
+Qed.
+Lemma pswitch_eqb_eq : forall a b, pswitch_eqb a b = true -> a = b.
+Proof.
+  intros [k v c] [k' v' c']. unfold pswitch_eqb. simpl. intro H.
+  apply andb_true_iff in H. destruct H as [H H3]. apply andb_true_iff in H. destruct H as [H1 H2].
+  assert (k = k') by (destruct k, k'; try discriminate; reflexivity).
+  assert (v = v') by (destruct v, v'; try discriminate; reflexivity).
+  assert (c = c').
+  { apply (list_eqb_eq pconst_eqb); [|assumption]. intros [] []; simpl; intro; try discriminate; reflexivity. }
+  congruence.
+Qed.
+
+(* ---- Parse<T>: the interpreter at the current skeleton is sem_parse; a skeleton accepted by
+   parse_skel_ok is the current one *)
+Lemma find_ext : forall {A} (f g : A -> bool) l, (forall x, f x = g x) -> find f l = find g l.
+Proof. induction l as [|x r IH]; intros H; simpl; [reflexivity|]. rewrite H, IH by assumption. reflexivity. Qed.
+
+Lemma sem_parse_sk_cur : forall t x, sem_parse_sk cur_parse_skel t x = sem_parse t x.
+Proof.
+  intros t x. unfold sem_parse_sk, cur_parse_skel, sem_parse. cbn [run_psteps run_pstep].
+  unfold run_switch at 1. cbn [sw_key sw_keyval sw_over vs_list sw_consts].
+  rewrite (find_ext _ (fun g => existsb (dyn_eqb x) (case_consts (t_cols t) g))).
+  2:{ intros g. unfold sw_case. cbn [sw_consts flat_map]. unfold parsable_values_of, case_consts. cbn [tl].
+      rewrite app_nil_r. reflexivity. }
+  destruct (find _ (t_all t)) as [g|]; [reflexivity|].
+  change (flag_on (t_opts t) "CaseInsensitive") with (o_ci (t_opts t)).
+  destruct (o_ci (t_opts t)); [|reflexivity].
+  unfold run_switch. cbn [sw_key sw_keyval sw_over vs_list].
+  destruct (dval x) as [s| |]; try reflexivity.
+  destruct (String.eqb (dty x) "string"); [|reflexivity].
+  rewrite (find_ext _ (fun g => String.eqb (to_lower (g_name g)) (to_lower s))).
+  2:{ intros g. unfold sw_case. cbn [sw_consts flat_map app existsb]. unfold dyn_eqb, DStr. cbn [dty dval payload_eqb].
+      rewrite String.eqb_refl, orb_false_r. cbn [andb]. apply String.eqb_sym. }
+  destruct (find _ (t_all t)); reflexivity.
+Qed.
+
+Lemma parse_skel_ok_cur : forall sk, parse_skel_ok sk = true -> sk = cur_parse_skel.
+Proof.
+  intros sk H. unfold parse_skel_ok in H.
+  destruct sk as [|[a| | |] [|[|fl [|[b| | |] [|]]| |] [|]]]; try discriminate.
+  apply andb_true_iff in H. destruct H as [H H3]. apply andb_true_iff in H. destruct H as [H1 H2].
+  apply pswitch_eqb_eq in H1. apply pswitch_eqb_eq in H3. apply String.eqb_eq in H2. subst. reflexivity.
+Qed.
+
+Lemma sem_parse_sk_ok : forall sk t x, parse_skel_ok sk = true -> sem_parse_sk sk t x = sem_parse t x.
+Proof. intros sk t x H. rewrite (parse_skel_ok_cur sk H). apply sem_parse_sk_cur. Qed.
+
+(* ---- the attempts a decoder makes are faithful readings of the document: a string reading
+   only when the library produced that string, an integer reading only when the library /
+   strconv produced that integer and it fits the trait's type, a native reading only when the
+   type's own unmarshaler succeeded.  (This is what fails for the pinned YAML decoder.) *)
+Inductive reading (str : option string) (u64 i64 : option Z) (native : list (string * option payload))
+          (t : tables) (x : dyn) : Prop :=
+| RdStr : forall s, str = Some s -> dval x = PStr s -> reading str u64 i64 native t x
+| RdU64 : forall u c, u64 = Some u -> In c (t_cols t) -> col_parsable c = true ->
+                      conv_int (ti_bkind (col_info c)) u = u ->     (* the number fits the trait's type *)
+                      x = typed c (PInt u) -> reading str u64 i64 native t x
+| RdI64 : forall i c, i64 = Some i -> In c (t_cols t) -> col_parsable c = true ->
+                      conv_int (ti_bkind (col_info c)) i = i ->
+                      x = typed c (PInt i) -> reading str u64 i64 native t x
+| RdNative : forall c p, In c (t_cols t) -> col_parsable c = true ->
+                         lookup (col_type c) native = Some (Some p) -> x = typed c p ->
+                         reading str u64 i64 native t x.
+Definition dv_reading (v : dview) := reading (dv_str v) (dv_u64 v) (dv_i64 v) (dv_native v).
+
+Lemma family_in : forall t k own c, In c (family t k own) -> In c (t_cols t) /\ col_parsable c = true.
+Proof.
+  intros t k own c H. unfold family in H. apply filter_In in H. destruct H as [H1 H2].
+  apply andb_true_iff in H2. destruct H2 as [H2 _]. apply andb_true_iff in H2. destruct H2 as [H2 _]. auto.
+Qed.
+Lemma family_own_in : forall t own c, In c (family_own t own) -> In c (t_cols t) /\ col_parsable c = true.
+Proof.
+  intros t own c H. unfold family_own in H. apply filter_In in H. destruct H as [H1 H2].
+  apply andb_true_iff in H2. destruct H2 as [H2 _]. auto.
+Qed.
+Lemma fam_cols_in : forall t f c, In c (fam_cols t f) -> In c (t_cols t) /\ col_parsable c = true.
+Proof. intros t [k c0|c0] c H; simpl in H; [eapply family_in|eapply family_own_in]; eassumption. Qed.
+
+Lemma native_attempts_reading : forall str u64 i64 native t cols x,
+  (forall c, In c cols -> In c (t_cols t) /\ col_parsable c = true) ->
+  In x (native_attempts cols native) -> reading str u64 i64 native t x.
+Proof.
+  intros str u64 i64 native t cols x Hc H. unfold native_attempts in H. apply in_flat_map in H.
+  destruct H as [c [Hin Hx]]. destruct (lookup (col_type c) native) as [[p|]|] eqn:E; simpl in Hx; try contradiction.
+  destruct Hx as [<-|[]]. destruct (Hc c Hin) as [H1 H2]. eapply RdNative; eauto.
+Qed.
+
+Lemma int_attempts_rc : forall cols x y, In y (int_attempts true cols x) ->
+  exists c, In c cols /\ conv_int (ti_bkind (col_info c)) x = x /\ y = typed c (PInt x).
+Proof.
+  intros cols x y H. unfold int_attempts in H. apply in_flat_map in H. destruct H as [c [Hc Hy]].
+  simpl in Hy. destruct (Z.eqb_spec (conv_int (ti_bkind (col_info c)) x) x) as [E|NE]; simpl in Hy; [|contradiction].
+  destruct Hy as [<-|[]]. exists c. split; [assumption|]. split; [assumption|].
+  unfold typed_int. rewrite E. reflexivity.
+Qed.
+
+Lemma int_attempts_in : forall rc cols c x, In c cols -> conv_int (ti_bkind (col_info c)) x = x ->
+  In (typed_int c x) (int_attempts rc cols x).
+Proof.
+  intros rc cols c x Hc E. unfold int_attempts. apply in_flat_map. exists c. split; [assumption|].
+  rewrite E, Z.eqb_refl. simpl. rewrite andb_false_r. left. reflexivity.
+Qed.
+
+(* every attempt of a sound skeleton is a faithful reading *)
+Lemma steps_faithful : forall c t v sk x, steps_sound c sk = true -> In x (skel_attempts t v sk) -> dv_reading v t x.
+Proof.
+  intros c t v sk x Hs Hx. unfold skel_attempts in Hx. apply in_flat_map in Hx. destruct Hx as [st [Hst Hx]].
+  unfold steps_sound in Hs. rewrite forallb_forall in Hs. specialize (Hs st Hst).
+  destruct st as [|g s ok body|g f via|w]; simpl in Hx; try contradiction.
+  - (* a guarded reading *)
+    simpl in Hs. apply andb_true_iff in Hs. destruct Hs as [Hok Hb]. subst ok.
+    destruct (gate_open t g); [|contradiction].
+    destruct (read_src v s) as [p|] eqn:Er; [|contradiction].
+    apply in_flat_map in Hx. destruct Hx as [a [Ha Hx]].
+    rewrite forallb_forall in Hb. specialize (Hb a Ha).
+    unfold attempt_dyns in Hx. unfold dv_reading.
+    destruct s; simpl in Er.
+    + (* string *)
+      destruct (dv_str v) as [str|] eqn:Es; [|discriminate]. inversion Er; subst p.
+      destruct (at_fam a) as [f|].
+      * apply in_map_iff in Hx. destruct Hx as [col [<- _]]. eapply RdStr; reflexivity.
+      * destruct Hx as [<-|[]]. eapply RdStr; reflexivity.
+    + (* uint64 *)
+      destruct (dv_u64 v) as [u|] eqn:Eu; [|discriminate]. inversion Er; subst p.
+      simpl in Hb. destruct (at_fam a) as [f|]; [|discriminate]. destruct (at_conv a); try discriminate.
+      apply int_attempts_rc in Hx. destruct Hx as [col [Hc [Hr ->]]].
+      destruct (fam_cols_in _ _ _ Hc). eapply RdU64; eauto.
+    + destruct (dv_i64 v) as [i|] eqn:Ei; [|discriminate]. inversion Er; subst p.
+      simpl in Hb. destruct (at_fam a) as [f|]; [|discriminate]. destruct (at_conv a); try discriminate.
+      apply int_attempts_rc in Hx. destruct Hx as [col [Hc [Hr ->]]].
+      destruct (fam_cols_in _ _ _ Hc). eapply RdI64; eauto.
+    + discriminate.
+    + discriminate.
+  - destruct (gate_open t g); [|contradiction].
+    eapply native_attempts_reading; [|exact Hx]. intros col Hc. apply (fam_cols_in _ _ _ Hc).
+Qed.
+
+(* which readings a complete skeleton tries *)
+Lemma fam_nonempty_open : forall t f c, In c (fam_cols t f) -> gate_open t (Some f) = true.
+Proof. intros t f c H. simpl. destruct (fam_cols t f); [contradiction|reflexivity]. Qed.
+
+Lemma steps_try : forall t v sk s a p y, steps_have s a sk = true -> read_src v s = Some p ->
+  In y (attempt_dyns t s p a) -> In y (skel_attempts t v sk).
+Proof.
+  intros t v sk s a p y H Hr Hy. unfold steps_have in H. apply existsb_exists in H. destruct H as [st [Hst H]].
+  unfold skel_attempts. apply in_flat_map. exists st. split; [assumption|].
+  destruct st as [|g s' ok body| |]; simpl in H; try discriminate. destruct ok; [|discriminate].
+  apply andb_true_iff in H. destruct H as [H Hb]. apply andb_true_iff in H. destruct H as [Hs Hg].
+  apply src_eqb_eq in Hs. subst s'. apply existsb_exists in Hb. destruct Hb as [a' [Ha' E]].
+  apply attempt_eqb_eq in E. subst a'.
+  assert (Hopen : gate_open t g = true).
+  { destruct g as [f|]; [|reflexivity]. simpl in Hg. apply opt_fam_eqb_eq in Hg.
+    unfold attempt_dyns in Hy. rewrite Hg in Hy.
+    destruct p as [str|x|b].
+    - apply in_map_iff in Hy. destruct Hy as [col [_ Hc]]. eapply fam_nonempty_open; eassumption.
+    - unfold int_attempts in Hy. apply in_flat_map in Hy. destruct Hy as [col [Hc _]]. eapply fam_nonempty_open; eassumption.
+    - apply in_map_iff in Hy. destruct Hy as [col [_ Hc]]. eapply fam_nonempty_open; eassumption. }
+  cbn [step_dyns]. rewrite Hopen, Hr. apply in_flat_map. exists a. split; assumption.
+Qed.
+
+Lemma native_tries : forall cols nat_view c p, In c cols -> lookup (col_type c) nat_view = Some (Some p) ->
+  In (typed c p) (native_attempts cols nat_view).
+Proof.
+  intros cols nat_view c p Hc Hl. unfold native_attempts. apply in_flat_map. exists c. split; [assumption|].
+  rewrite Hl. left. reflexivity.
+Qed.
+
+Lemma steps_try_native : forall t v sk co c p, existsb (step_has_native co) sk = true ->
+  In c (fam_cols t (FamOwn co)) -> lookup (col_type c) (dv_native v) = Some (Some p) ->
+  In (typed c p) (skel_attempts t v sk).
+Proof.
+  intros t v sk co c p H Hc Hl. apply existsb_exists in H. destruct H as [st [Hst H]].
+  unfold skel_attempts. apply in_flat_map. exists st. split; [assumption|].
+  destruct st as [| |g f via|]; simpl in H; try discriminate.
+  apply andb_true_iff in H. destruct H as [H Hg]. apply andb_true_iff in H. destruct H as [Hf _].
+  apply fam_eqb_eq in Hf. subst f.
+  assert (Hopen : gate_open t g = true).
+  { destruct g as [f'|]; [|reflexivity]. apply fam_eqb_eq in Hg. subst f'. eapply fam_nonempty_open; eassumption. }
+  cbn [step_dyns]. rewrite Hopen. apply native_tries; assumption.
+Qed.
+
+Lemma name_first_inv : forall sk, name_first sk = true ->
+  exists pre cv body rest, (pre = [] \/ pre = [StNullReject])
+    /\ sk = pre ++ StRead None SrcString true ({| at_fam := None; at_conv := cv |} :: body) :: rest.
+Proof.
+  intros sk H. unfold name_first in H.
+  assert (K : forall l, match l with
+     | StRead None SrcString true ({| at_fam := None; at_conv := _ |} :: _) :: _ => true | _ => false end = true ->
+     exists cv body rest, l = StRead None SrcString true ({| at_fam := None; at_conv := cv |} :: body) :: rest).
+  { intros l Hl. destruct l as [|st rest]; [discriminate|]. destruct st as [|g s ok body| |]; try discriminate.
+    destruct g; [discriminate|]. destruct s; try discriminate. destruct ok; [|discriminate].
+    destruct body as [|[f cv] body]; [discriminate|]. destruct f; [discriminate|]. eauto. }
+  set (inner := match sk with StNullReject :: r => r | _ => sk end) in H.
+  destruct (K inner H) as [cv [body [rest E]]].
+  destruct sk as [|st r]; [discriminate E|].
+  destruct st as [|g s ok body0|g f via|w]; subst inner; cbn in E.
+  - exists [StNullReject], cv, body, rest. split; [right; reflexivity|]. rewrite E. reflexivity.
+  - exists [], cv, body, rest. split; [left; reflexivity|exact E].
+  - discriminate E.
+  - discriminate E.
+Qed.
+
 Section Codecs.
   Variable d : defn.
   Variable o : opts.
@@ -1057,13 +1334,10 @@ Section Codecs.
   Let cs := d_consts d.
 
   Lemma try_all_head : forall x rest v, sem_parse t x = Some v -> try_all t (x :: rest) = Some v.
-  Proof. intros x rest v H. simpl. rewrite H. reflexivity. Qed.
+  Proof. intros x rest v H. unfold try_all. simpl. rewrite H. reflexivity. Qed.
 
   Lemma try_all_none : forall l, (forall x, In x l -> sem_parse t x = None) -> try_all t l = None.
-  Proof.
-    induction l as [|x r IH]; intros H; simpl; [reflexivity|].
-    rewrite (H x) by (left; reflexivity). apply IH. intros y Hy. apply H. right. assumption.
-  Qed.
+  Proof. intros l H. apply try_with_none. exact H. Qed.
 
   (* the string every encoder emits for a defined value parses back to that value *)
   Lemma parse_primary : forall v, In v (values_spec cs) -> sem_parse t (DStr (sem_string t v)) = Some v.
@@ -1081,23 +1355,19 @@ Section Codecs.
   Lemma encode_yaml_spec : forall v, encode_yaml t v = string_spec d v.
   Proof. intros v. unfold encode_yaml. apply (sem_string_spec d o t Hwf Hgen). Qed.
 
-  (* round trips: the library view of an encoded value is the emitted name (view soundness) *)
-  Lemma roundtrip_json : forall v jv, In v (values_spec cs) -> jv_null jv = false ->
-    jv_string jv = Some (sem_string t v) -> decode_json t jv = Some v.
+  (* round trips: whenever the name attempt comes first, a document whose string reading is the emitted
+     name decodes to the value (view soundness: the library's string reading of the encoded document is
+     that name — measured for every round trip by the farm) *)
+  Lemma roundtrip_steps : forall sk v dv, name_first sk = true -> In v (values_spec cs) ->
+    dv_null dv = false -> dv_str dv = Some (sem_string t v) -> run_steps (sem_parse t) t dv sk = Some v.
   Proof.
-    intros v jv Hv Hnn Hs. unfold decode_json, json_attempts, json_attempts_gen. rewrite Hnn, Hs. simpl.
-    rewrite (parse_primary v Hv). reflexivity.
-  Qed.
-  Lemma roundtrip_text : forall v tv, In v (values_spec cs) ->
-    tv_text tv = sem_string t v -> decode_text t tv = Some v.
-  Proof.
-    intros v tv Hv Hs. unfold decode_text, text_attempts. rewrite Hs. simpl.
-    rewrite (parse_primary v Hv). reflexivity.
-  Qed.
-  Lemma roundtrip_yaml : forall v yv, In v (values_spec cs) ->
-    yv_value yv = sem_string t v -> decode_yaml t yv = Some v.
-  Proof.
-    intros v yv Hv Hs. unfold decode_yaml, yaml_attempts_gen, yaml_attempts_gen2. rewrite Hs. simpl.
+    intros sk v dv Hn Hv Hnn Hs. rewrite run_steps_attempts by assumption.
+    destruct (name_first_inv sk Hn) as [pre [cv [body [rest [Hpre ->]]]]].
+    rewrite skel_attempts_app, skel_attempts_cons.
+    assert (Ep : skel_attempts t dv pre = []) by (destruct Hpre as [->| ->]; reflexivity).
+    rewrite Ep. cbn [app step_dyns gate_open]. unfold read_src. rewrite Hs.
+    cbn [flat_map attempt_dyns at_fam src_type app try_with].
+    change {| dty := "string"; dval := PStr (sem_string t v) |} with (DStr (sem_string t v)).
     rewrite (parse_primary v Hv). reflexivity.
   Qed.
 
@@ -1130,137 +1400,192 @@ Section Codecs.
 
   Definition rejectable (x : dyn) : Prop := ~ names_constant x /\ ~ is_trait_const d t x.
 
-  Lemma reject_json : forall jv, (forall x, In x (json_attempts t jv) -> rejectable x) -> decode_json t jv = None.
+  (* a sound decoder rejects every document none of whose faithful readings names a constant or is a
+     parsable trait constant *)
+  Lemma reject_steps : forall c sk dv, steps_sound c sk = true ->
+    (forall x, dv_reading dv t x -> rejectable x) -> run_steps (sem_parse t) t dv sk = None.
   Proof.
-    intros jv H. unfold decode_json. destruct (jv_null jv); [reflexivity|].
-    apply try_all_none. intros x Hx. destruct (H x Hx). apply parse_reject_dyn; assumption.
-  Qed.
-  Lemma reject_text : forall tv, (forall x, In x (text_attempts t tv) -> rejectable x) -> decode_text t tv = None.
-  Proof.
-    intros tv H. unfold decode_text. apply try_all_none. intros x Hx. destruct (H x Hx). apply parse_reject_dyn; assumption.
-  Qed.
-  Lemma reject_yaml : forall yv, (forall x, In x (yaml_attempts_gen true t yv) -> rejectable x) -> decode_yaml t yv = None.
-  Proof.
-    intros yv H. unfold decode_yaml. apply try_all_none. intros x Hx. destruct (H x Hx). apply parse_reject_dyn; assumption.
+    intros c sk dv Hs H. apply run_steps_none. intros x Hx.
+    destruct (H x (steps_faithful c t dv sk x Hs Hx)). apply parse_reject_dyn; assumption.
   Qed.
 End Codecs.
 
-(* ---- the attempts a decoder makes are faithful readings of the document: a string reading
-   only when the library produced that string, an integer reading only when the library /
-   strconv produced that integer, a native reading only when the type's own unmarshaler
-   succeeded.  (This is what fails for the pinned YAML decoder.) *)
-Inductive reading (str : option string) (u64 i64 : option Z) (native : list (string * option payload))
-          (t : tables) (x : dyn) : Prop :=
-| RdStr : forall s, str = Some s -> dval x = PStr s -> reading str u64 i64 native t x
-| RdU64 : forall u c, u64 = Some u -> In c (t_cols t) -> col_parsable c = true ->
-                      conv_int (ti_bkind (col_info c)) u = u ->     (* the number fits the trait's type *)
-                      x = typed c (PInt u) -> reading str u64 i64 native t x
-| RdI64 : forall i c, i64 = Some i -> In c (t_cols t) -> col_parsable c = true ->
-                      conv_int (ti_bkind (col_info c)) i = i ->
-                      x = typed c (PInt i) -> reading str u64 i64 native t x
-| RdNative : forall c p, In c (t_cols t) -> col_parsable c = true ->
-                         lookup (col_type c) native = Some (Some p) -> x = typed c p ->
-                         reading str u64 i64 native t x.
-
-Lemma family_in : forall t k own c, In c (family t k own) -> In c (t_cols t) /\ col_parsable c = true.
+(* ---- the same for any well-formed skeleton record *)
+Lemma skels_ok_parts : forall k, skels_ok k = true ->
+  dskel_ok CoJSON (sk_json k) = true /\ dskel_ok CoText (sk_text k) = true /\ dskel_ok CoYAML (sk_yaml k) = true
+  /\ parse_skel_ok (sk_parse k) = true /\ small_ok k = true.
 Proof.
-  intros t k own c H. unfold family in H. apply filter_In in H. destruct H as [H1 H2].
-  apply andb_true_iff in H2. destruct H2 as [H2 _]. apply andb_true_iff in H2. destruct H2 as [H2 _]. auto.
+  intros k H. unfold skels_ok in H.
+  apply andb_true_iff in H. destruct H as [H H5]. apply andb_true_iff in H. destruct H as [H H4].
+  apply andb_true_iff in H. destruct H as [H H3]. apply andb_true_iff in H. destruct H as [H1 H2]. auto.
 Qed.
-Lemma family_own_in : forall t own c, In c (family_own t own) -> In c (t_cols t) /\ col_parsable c = true.
+Lemma dskel_ok_parts : forall c dk, dskel_ok c dk = true ->
+  gates_are (codec_flag c) (ds_gates dk) = true /\ steps_sound c (ds_steps dk) = true
+  /\ steps_complete c (ds_steps dk) = true /\ (c <> CoText -> null_checked (ds_steps dk) = true).
 Proof.
-  intros t own c H. unfold family_own in H. apply filter_In in H. destruct H as [H1 H2].
-  apply andb_true_iff in H2. destruct H2 as [H2 _]. auto.
+  intros c dk H. unfold dskel_ok in H.
+  apply andb_true_iff in H. destruct H as [H H4]. apply andb_true_iff in H. destruct H as [H H3].
+  apply andb_true_iff in H. destruct H as [H1 H2].
+  repeat split; try assumption. intros Hc. destruct c; try assumption. congruence.
 Qed.
-
-Lemma native_attempts_reading : forall str u64 i64 native t cols x,
-  (forall c, In c cols -> In c (t_cols t) /\ col_parsable c = true) ->
-  In x (native_attempts cols native) -> reading str u64 i64 native t x.
+Lemma steps_complete_parts : forall c sk, steps_complete c sk = true ->
+  name_first sk = true /\ steps_have SrcString (fam_attempt (FamKind KString c) CvTyped) sk = true
+  /\ (c <> CoText -> steps_have SrcU64 (fam_attempt (FamKind KUint64 c) CvChecked) sk = true
+                     /\ steps_have SrcI64 (fam_attempt (FamKind KInt64 c) CvChecked) sk = true)
+  /\ existsb (step_has_native c) sk = true.
 Proof.
-  intros str u64 i64 native t cols x Hc H. unfold native_attempts in H. apply in_flat_map in H.
-  destruct H as [c [Hin Hx]]. destruct (lookup (col_type c) native) as [[p|]|] eqn:E; simpl in Hx; try contradiction.
-  destruct Hx as [<-|[]]. destruct (Hc c Hin) as [H1 H2]. eapply RdNative; eauto.
+  intros c sk H. unfold steps_complete in H.
+  apply andb_true_iff in H. destruct H as [H H4]. apply andb_true_iff in H. destruct H as [H H3].
+  apply andb_true_iff in H. destruct H as [H1 H2].
+  repeat split; try assumption; destruct c; try congruence;
+    apply andb_true_iff in H3; destruct H3; assumption.
 Qed.
 
-Lemma int_attempts_rc : forall cols x y, In y (int_attempts true cols x) ->
-  exists c, In c cols /\ conv_int (ti_bkind (col_info c)) x = x /\ y = typed c (PInt x).
+Lemma decode_json_sk_parse : forall k t jv, skels_ok k = true ->
+  decode_json_sk k t jv = run_steps (sem_parse t) t (dv_of_j jv) (ds_steps (sk_json k)).
 Proof.
-  intros cols x y H. unfold int_attempts in H. apply in_flat_map in H. destruct H as [c [Hc Hy]].
-  simpl in Hy. destruct (Z.eqb_spec (conv_int (ti_bkind (col_info c)) x) x) as [E|NE]; simpl in Hy; [|contradiction].
-  destruct Hy as [<-|[]]. exists c. split; [assumption|]. split; [assumption|].
-  unfold typed_int. rewrite E. reflexivity.
+  intros k t jv H. unfold decode_json_sk. apply run_steps_ext. intros x. apply sem_parse_sk_ok.
+  apply (skels_ok_parts k H).
+Qed.
+Lemma decode_yaml_sk_parse : forall k t yv, skels_ok k = true ->
+  decode_yaml_sk k t yv = run_steps (sem_parse t) t (dv_of_y yv) (ds_steps (sk_yaml k)).
+Proof.
+  intros k t jv H. unfold decode_yaml_sk. apply run_steps_ext. intros x. apply sem_parse_sk_ok.
+  apply (skels_ok_parts k H).
+Qed.
+Lemma decode_text_sk_parse : forall k t tv, skels_ok k = true ->
+  decode_text_sk k t tv = run_steps (sem_parse t) t (dv_of_t tv) (ds_steps (sk_text k)).
+Proof.
+  intros k t jv H. unfold decode_text_sk. apply run_steps_ext. intros x. apply sem_parse_sk_ok.
+  apply (skels_ok_parts k H).
 Qed.
 
-Lemma int_attempts_in : forall rc cols c x, In c cols -> conv_int (ti_bkind (col_info c)) x = x ->
-  In (typed_int c x) (int_attempts rc cols x).
-Proof.
-  intros rc cols c x Hc E. unfold int_attempts. apply in_flat_map. exists c. split; [assumption|].
-  rewrite E, Z.eqb_refl. simpl. rewrite andb_false_r. left. reflexivity.
-Qed.
+Lemma cur_skels_ok : skels_ok cur_skels = true.
+Proof. vm_compute. reflexivity. Qed.
 
-Lemma json_attempts_faithful : forall t jv x, In x (json_attempts t jv) ->
-  reading (jv_string jv) (jv_u64 jv) (jv_i64 jv) (jv_native jv) t x.
-Proof.
-  intros t jv x H. unfold json_attempts, json_attempts_gen in H.
-  apply in_app_or in H. destruct H as [H|H].
-  - destruct (jv_string jv) as [s|] eqn:E; [|contradiction]. destruct H as [<-|H].
-    + eapply RdStr; reflexivity.
-    + apply in_map_iff in H. destruct H as [c [<- _]]. eapply RdStr; reflexivity.
-  - apply in_app_or in H. destruct H as [H|H].
-    + destruct (jv_u64 jv) as [u|] eqn:E; [|contradiction]. apply int_attempts_rc in H. destruct H as [c [Hc [Hr ->]]].
-      destruct (family_in _ _ _ _ Hc). eapply RdU64; eauto.
-    + apply in_app_or in H. destruct H as [H|H].
-      * destruct (jv_i64 jv) as [i|] eqn:E; [|contradiction]. apply int_attempts_rc in H. destruct H as [c [Hc [Hr ->]]].
-        destruct (family_in _ _ _ _ Hc). eapply RdI64; eauto.
-      * eapply native_attempts_reading; [|exact H]. intros c Hc. apply (family_own_in _ _ _ Hc).
-Qed.
+Lemma json_sound : forall k, skels_ok k = true -> steps_sound CoJSON (ds_steps (sk_json k)) = true.
+Proof. intros k H. apply (dskel_ok_parts CoJSON _ (proj1 (skels_ok_parts k H))). Qed.
+Lemma text_sound : forall k, skels_ok k = true -> steps_sound CoText (ds_steps (sk_text k)) = true.
+Proof. intros k H. apply (dskel_ok_parts CoText _ (proj1 (proj2 (skels_ok_parts k H)))). Qed.
+Lemma yaml_sound : forall k, skels_ok k = true -> steps_sound CoYAML (ds_steps (sk_yaml k)) = true.
+Proof. intros k H. apply (dskel_ok_parts CoYAML _ (proj1 (proj2 (proj2 (skels_ok_parts k H))))). Qed.
+Lemma json_complete : forall k, skels_ok k = true -> steps_complete CoJSON (ds_steps (sk_json k)) = true.
+Proof. intros k H. apply (dskel_ok_parts CoJSON _ (proj1 (skels_ok_parts k H))). Qed.
+Lemma text_complete : forall k, skels_ok k = true -> steps_complete CoText (ds_steps (sk_text k)) = true.
+Proof. intros k H. apply (dskel_ok_parts CoText _ (proj1 (proj2 (skels_ok_parts k H)))). Qed.
+Lemma yaml_complete : forall k, skels_ok k = true -> steps_complete CoYAML (ds_steps (sk_yaml k)) = true.
+Proof. intros k H. apply (dskel_ok_parts CoYAML _ (proj1 (proj2 (proj2 (skels_ok_parts k H))))). Qed.
+Lemma json_null_checked : forall k, skels_ok k = true -> null_checked (ds_steps (sk_json k)) = true.
+Proof. intros k H. apply (dskel_ok_parts CoJSON _ (proj1 (skels_ok_parts k H))). discriminate. Qed.
+Lemma yaml_null_checked : forall k, skels_ok k = true -> null_checked (ds_steps (sk_yaml k)) = true.
+Proof. intros k H. apply (dskel_ok_parts CoYAML _ (proj1 (proj2 (proj2 (skels_ok_parts k H))))). discriminate. Qed.
 
-Lemma text_attempts_faithful : forall t tv x, In x (text_attempts t tv) ->
-  reading (Some (tv_text tv)) None None (tv_native tv) t x.
+(* round trips, for every well-formed skeleton record *)
+Lemma roundtrip_json_sk : forall k, skels_ok k = true -> forall d o t, wf_defn d -> gen d o = Built t ->
+  forall v jv, In v (values_spec (d_consts d)) -> jv_null jv = false ->
+  jv_string jv = Some (sem_string t v) -> decode_json_sk k t jv = Some v.
 Proof.
-  intros t tv x H. unfold text_attempts in H. destruct H as [<-|H].
-  - eapply RdStr; reflexivity.
-  - apply in_app_or in H. destruct H as [H|H].
-    + apply in_map_iff in H. destruct H as [c [<- _]]. eapply RdStr; reflexivity.
-    + eapply native_attempts_reading; [|exact H]. intros c Hc. apply (family_own_in _ _ _ Hc).
+  intros k Hk d o t Hwf Hg v jv Hv Hnn Hs. rewrite decode_json_sk_parse by assumption.
+  apply (roundtrip_steps d o t Hwf Hg); try assumption.
+  apply (steps_complete_parts CoJSON _ (json_complete k Hk)).
 Qed.
-
-Lemma yaml_attempts_faithful : forall t yv x, In x (yaml_attempts_gen true t yv) ->
-  reading (Some (yv_value yv)) (yv_u64 yv) (yv_i64 yv) (yv_native yv) t x.
+Lemma roundtrip_text_sk : forall k, skels_ok k = true -> forall d o t, wf_defn d -> gen d o = Built t ->
+  forall v tv, In v (values_spec (d_consts d)) ->
+  tv_text tv = sem_string t v -> decode_text_sk k t tv = Some v.
 Proof.
-  intros t yv x H. unfold yaml_attempts_gen, yaml_attempts_gen2 in H. destruct H as [<-|H].
-  - eapply RdStr; reflexivity.
-  - apply in_app_or in H. destruct H as [H|H].
-    + apply in_map_iff in H. destruct H as [c [<- _]]. eapply RdStr; reflexivity.
-    + apply in_app_or in H. destruct H as [H|H].
-      * destruct (yv_u64 yv) as [u|] eqn:E; [|contradiction]. apply int_attempts_rc in H. destruct H as [c [Hc [Hr ->]]].
-        destruct (family_in _ _ _ _ Hc). eapply RdU64; eauto.
-      * apply in_app_or in H. destruct H as [H|H].
-        -- destruct (yv_i64 yv) as [i|] eqn:E; [|contradiction]. apply int_attempts_rc in H. destruct H as [c [Hc [Hr ->]]].
-           destruct (family_in _ _ _ _ Hc). eapply RdI64; eauto.
-        -- eapply native_attempts_reading; [|exact H]. intros c Hc. apply (family_own_in _ _ _ Hc).
+  intros k Hk d o t Hwf Hg v tv Hv Hs. rewrite decode_text_sk_parse by assumption.
+  apply (roundtrip_steps d o t Hwf Hg); try assumption; try reflexivity.
+  - apply (steps_complete_parts CoText _ (text_complete k Hk)).
+  - simpl. rewrite Hs. reflexivity.
+Qed.
+Lemma roundtrip_yaml_sk : forall k, skels_ok k = true -> forall d o t, wf_defn d -> gen d o = Built t ->
+  forall v yv, In v (values_spec (d_consts d)) -> yv_scalar yv = true ->
+  yv_value yv = sem_string t v -> decode_yaml_sk k t yv = Some v.
+Proof.
+  intros k Hk d o t Hwf Hg v yv Hv Hsc Hs. rewrite decode_yaml_sk_parse by assumption.
+  apply (roundtrip_steps d o t Hwf Hg); try assumption.
+  - apply (steps_complete_parts CoYAML _ (yaml_complete k Hk)).
+  - simpl. rewrite Hsc. reflexivity.
+  - simpl. rewrite Hs. reflexivity.
 Qed.
 
 (* a document none of whose faithful readings names a constant or is a parsable trait constant
-   is rejected — by each of the three decoders *)
+   is rejected — by each of the three decoders, for every well-formed skeleton record *)
+Lemma reject_json_sk : forall k, skels_ok k = true -> forall d o t jv, gen d o = Built t ->
+  (forall x, reading (jv_string jv) (jv_u64 jv) (jv_i64 jv) (jv_native jv) t x -> rejectable d o t x) ->
+  decode_json_sk k t jv = None.
+Proof.
+  intros k Hk d o t jv Hg H. rewrite decode_json_sk_parse by assumption.
+  apply (reject_steps d o t Hg CoJSON); [apply json_sound; assumption|exact H].
+Qed.
+Lemma reject_text_sk : forall k, skels_ok k = true -> forall d o t tv, gen d o = Built t ->
+  (forall x, reading (Some (tv_text tv)) None None (tv_native tv) t x -> rejectable d o t x) ->
+  decode_text_sk k t tv = None.
+Proof.
+  intros k Hk d o t tv Hg H. rewrite decode_text_sk_parse by assumption.
+  apply (reject_steps d o t Hg CoText); [apply text_sound; assumption|exact H].
+Qed.
+Lemma reject_yaml_sk : forall k, skels_ok k = true -> forall d o t yv, gen d o = Built t ->
+  (forall x, reading (Some (yv_value yv)) (yv_u64 yv) (yv_i64 yv) (yv_native yv) t x -> rejectable d o t x) ->
+  decode_yaml_sk k t yv = None.
+Proof.
+  intros k Hk d o t yv Hg H. rewrite decode_yaml_sk_parse by assumption.
+  apply (reject_steps d o t Hg CoYAML); [apply yaml_sound; assumption|exact H].
+Qed.
+(* a YAML sequence or mapping holds no scalar: refused outright by a decoder that checks the node kind *)
+Lemma decode_yaml_nonscalar_sk : forall k, skels_ok k = true ->
+  forall t yv, yv_scalar yv = false -> decode_yaml_sk k t yv = None.
+Proof.
+  intros k Hk t yv Hn. unfold decode_yaml_sk. apply run_steps_null; [apply yaml_null_checked; exact Hk|]. simpl. rewrite Hn. reflexivity.
+Qed.
+Lemma decode_json_null_sk : forall k, skels_ok k = true -> forall t jv, jv_null jv = true -> decode_json_sk k t jv = None.
+Proof.
+  intros k Hk t jv Hn. unfold decode_json_sk. apply run_steps_null; [apply json_null_checked; assumption|exact Hn].
+Qed.
+
+(* … and for the current skeletons *)
+Lemma decode_json_cur : forall t jv, decode_json t jv = run_steps (sem_parse t) t (dv_of_j jv) (json_steps_gen true CvChecked).
+Proof. intros. apply (decode_json_sk_parse cur_skels t jv cur_skels_ok). Qed.
+Lemma decode_yaml_cur : forall t yv, decode_yaml t yv = run_steps (sem_parse t) t (dv_of_y yv) (yaml_steps_gen true CvChecked).
+Proof. intros. apply (decode_yaml_sk_parse cur_skels t yv cur_skels_ok). Qed.
+Lemma decode_text_cur : forall t tv, decode_text t tv = run_steps (sem_parse t) t (dv_of_t tv) text_steps.
+Proof. intros. apply (decode_text_sk_parse cur_skels t tv cur_skels_ok). Qed.
+
+Lemma roundtrip_json : forall d o t, wf_defn d -> gen d o = Built t ->
+  forall v jv, In v (values_spec (d_consts d)) -> jv_null jv = false ->
+  jv_string jv = Some (sem_string t v) -> decode_json t jv = Some v.
+Proof. exact (roundtrip_json_sk cur_skels cur_skels_ok). Qed.
+Lemma roundtrip_text : forall d o t, wf_defn d -> gen d o = Built t ->
+  forall v tv, In v (values_spec (d_consts d)) ->
+  tv_text tv = sem_string t v -> decode_text t tv = Some v.
+Proof. exact (roundtrip_text_sk cur_skels cur_skels_ok). Qed.
+Lemma roundtrip_yaml : forall d o t, wf_defn d -> gen d o = Built t ->
+  forall v yv, In v (values_spec (d_consts d)) -> yv_scalar yv = true ->
+  yv_value yv = sem_string t v -> decode_yaml t yv = Some v.
+Proof. exact (roundtrip_yaml_sk cur_skels cur_skels_ok). Qed.
+
+Lemma json_attempts_faithful : forall t jv x, In x (json_attempts t jv) ->
+  reading (jv_string jv) (jv_u64 jv) (jv_i64 jv) (jv_native jv) t x.
+Proof. intros t jv x H. apply (steps_faithful CoJSON t (dv_of_j jv) _ x (json_sound cur_skels cur_skels_ok) H). Qed.
+Lemma text_attempts_faithful : forall t tv x, In x (text_attempts t tv) ->
+  reading (Some (tv_text tv)) None None (tv_native tv) t x.
+Proof. intros t tv x H. apply (steps_faithful CoText t (dv_of_t tv) _ x (text_sound cur_skels cur_skels_ok) H). Qed.
+Lemma yaml_attempts_faithful : forall t yv x, In x (yaml_attempts t yv) ->
+  reading (Some (yv_value yv)) (yv_u64 yv) (yv_i64 yv) (yv_native yv) t x.
+Proof. intros t yv x H. apply (steps_faithful CoYAML t (dv_of_y yv) _ x (yaml_sound cur_skels cur_skels_ok) H). Qed.
+
 Lemma reject_json_readings : forall d o t jv, gen d o = Built t ->
   (forall x, reading (jv_string jv) (jv_u64 jv) (jv_i64 jv) (jv_native jv) t x -> rejectable d o t x) ->
   decode_json t jv = None.
-Proof.
-  intros d o t jv Hg H. apply (reject_json d o t Hg). intros x Hx. apply H. apply json_attempts_faithful. assumption.
-Qed.
+Proof. exact (reject_json_sk cur_skels cur_skels_ok). Qed.
 Lemma reject_text_readings : forall d o t tv, gen d o = Built t ->
   (forall x, reading (Some (tv_text tv)) None None (tv_native tv) t x -> rejectable d o t x) ->
   decode_text t tv = None.
-Proof.
-  intros d o t tv Hg H. apply (reject_text d o t Hg). intros x Hx. apply H. apply text_attempts_faithful. assumption.
-Qed.
+Proof. exact (reject_text_sk cur_skels cur_skels_ok). Qed.
 Lemma reject_yaml_readings : forall d o t yv, gen d o = Built t ->
   (forall x, reading (Some (yv_value yv)) (yv_u64 yv) (yv_i64 yv) (yv_native yv) t x -> rejectable d o t x) ->
   decode_yaml t yv = None.
-Proof.
-  intros d o t yv Hg H. apply (reject_yaml d o t Hg). intros x Hx. apply H. apply yaml_attempts_faithful. assumption.
-Qed.
+Proof. exact (reject_yaml_sk cur_skels cur_skels_ok). Qed.
 
 (* integer readings are not narrowed for the 64-bit trait kinds *)
 Lemma wrap_to_id_signed64 : forall x, - 2 ^ 63 <= x < 2 ^ 63 -> wrap_to true 64 x = x.
@@ -1298,14 +1623,21 @@ Definition yw_defn : defn :=
      d_types := [("int", {| ti_bkind := BUntypedInt; ti_json_own := false; ti_yaml_own := false; ti_text_own := false |})] |}.
 Definition yw_opts : opts :=
   {| o_json := true; o_yaml := true; o_text := true; o_ci := false; o_notraits := false; o_parsable := ["Code"] |}.
-Definition yw_garbage : yview := {| yv_value := "garbage"; yv_u64 := None; yv_i64 := None; yv_native := [] |}.
-Definition yw_seven : yview := {| yv_value := "7"; yv_u64 := Some 7; yv_i64 := Some 7; yv_native := [] |}.
+Definition yw_garbage : yview := {| yv_scalar := true; yv_value := "garbage"; yv_u64 := None; yv_i64 := None; yv_native := [] |}.
+Definition yw_seven : yview := {| yv_scalar := true; yv_value := "7"; yv_u64 := Some 7; yv_i64 := Some 7; yv_native := [] |}.
 
 Lemma decode_yaml_orig_refuted :
   exists t, gen yw_defn yw_opts = Built t
             /\ decode_yaml_orig t yw_garbage = Some 0 /\ decode_yaml_orig t yw_seven = None
             /\ decode_yaml t yw_garbage = None /\ decode_yaml t yw_seven = Some 1.
 Proof. eexists. split; [vm_compute; reflexivity|]. vm_compute. repeat split. Qed.
+
+(* the skeleton of the pinned YAML decoder is not sound (guards inverted, no range check) *)
+Lemma yaml_orig_unsound : steps_sound CoYAML (yaml_steps_gen2 false false CvTyped) = false
+                          /\ steps_sound CoYAML (yaml_steps_gen true CvTyped) = false
+                          /\ steps_sound CoJSON (json_steps_gen true CvTyped) = false
+                          /\ null_checked (json_steps_gen false CvChecked) = false.
+Proof. vm_compute. repeat split. Qed.
 
 (* ================================================================== Part 5: traits (C12) *)
 
@@ -1365,8 +1697,10 @@ Proof.
   { intros vs cols Hm Ho. apply mk_tables_built in Hm. destruct Hm as [_ ->]. exact Ho. }
   destruct (sort_values (d_consts d)) as [|first rest] eqn:Es; [discriminate|].
   assert (Hnil : cols_owned (first :: rest) []) by (intros c r []).
+  destruct (existsb (fun v => reserved_name o (g_name v)) (first :: rest)); [discriminate|].
   destruct (o_ci o && negb (str_nodupb (map (fun v => to_lower (g_name v)) (first :: rest)))); [discriminate|].
   destruct (o_notraits o); [apply (Hmk _ _ H Hnil)|].
+  destruct (existsb (fun v => existsb (fun c => reserved_cell_var (cl_var c)) (g_cells v)) (first :: rest)); [discriminate|].
   destruct (first_columns d o first (g_cells first)) as [cols0| | |] eqn:Ef; try discriminate.
   destruct (Nat.eqb (length cols0) 0).
   - destruct (forallb _ _); [apply (Hmk _ _ H Hnil)|discriminate].
@@ -1469,7 +1803,7 @@ Section Traits.
   Lemma try_all_unique : forall l x v, In x l -> sem_parse t x = Some v ->
     (forall y w, In y l -> sem_parse t y = Some w -> w = v) -> try_all t l = Some v.
   Proof.
-    induction l as [|a r IH]; intros x v Hin Hx Hu; [contradiction|]. simpl.
+    unfold try_all. induction l as [|a r IH]; intros x v Hin Hx Hu; [contradiction|]. simpl.
     destruct (sem_parse t a) as [w|] eqn:Ea.
     - f_equal. apply (Hu a w); [left; reflexivity|assumption].
     - destruct Hin as [->|Hin]; [congruence|]. eapply IH; eauto.
@@ -1479,95 +1813,105 @@ Section Traits.
   Definition unambiguous (l : list dyn) (v : Z) : Prop :=
     forall y w, In y l -> sem_parse t y = Some w -> w = v.
 
-  (* which readings the decoders try for a trait column *)
-  Lemma json_tries_string : forall c jv s, In c (family t KString ti_json_own) -> jv_string jv = Some s ->
-    In (typed c (PStr s)) (json_attempts t jv).
+  (* which readings a decoder with a complete skeleton tries for a trait column *)
+  Lemma steps_try_string : forall co sk dv c s, steps_complete co sk = true ->
+    In c (family t KString (own_of co)) -> dv_str dv = Some s -> In (typed c (PStr s)) (skel_attempts t dv sk).
   Proof.
-    intros c jv s Hc Hs. unfold json_attempts, json_attempts_gen. rewrite Hs. apply in_or_app. left. right.
-    apply in_map_iff. exists c. split; [reflexivity|assumption].
+    intros co sk dv c s Hc Hin Hs. destruct (steps_complete_parts co sk Hc) as [_ [H _]].
+    eapply steps_try; [exact H| |].
+    - unfold read_src. rewrite Hs. reflexivity.
+    - unfold attempt_dyns, fam_attempt. cbn [at_fam fam_cols]. apply in_map_iff. exists c. split; [reflexivity|assumption].
   Qed.
-  Lemma json_tries_uint : forall c jv u, In c (family t KUint64 ti_json_own) -> jv_u64 jv = Some u ->
-    conv_int (ti_bkind (col_info c)) u = u -> In (typed_int c u) (json_attempts t jv).
+  Lemma steps_try_uint : forall co sk dv c u, steps_complete co sk = true -> co <> CoText ->
+    In c (family t KUint64 (own_of co)) -> dv_u64 dv = Some u ->
+    conv_int (ti_bkind (col_info c)) u = u -> In (typed_int c u) (skel_attempts t dv sk).
   Proof.
-    intros c jv u Hc Hu Hr. unfold json_attempts, json_attempts_gen. rewrite Hu. apply in_or_app. right. apply in_or_app. left.
-    apply int_attempts_in; assumption.
+    intros co sk dv c u Hc Hnt Hin Hu Hr. destruct (steps_complete_parts co sk Hc) as [_ [_ [H _]]].
+    destruct (H Hnt) as [H1 _].
+    eapply steps_try; [exact H1| |].
+    - unfold read_src. rewrite Hu. reflexivity.
+    - unfold attempt_dyns, fam_attempt. cbn [at_fam at_conv fam_cols]. apply int_attempts_in; assumption.
   Qed.
-  Lemma json_tries_int : forall c jv i, In c (family t KInt64 ti_json_own) -> jv_i64 jv = Some i ->
-    conv_int (ti_bkind (col_info c)) i = i -> In (typed_int c i) (json_attempts t jv).
+  Lemma steps_try_int : forall co sk dv c i, steps_complete co sk = true -> co <> CoText ->
+    In c (family t KInt64 (own_of co)) -> dv_i64 dv = Some i ->
+    conv_int (ti_bkind (col_info c)) i = i -> In (typed_int c i) (skel_attempts t dv sk).
   Proof.
-    intros c jv i Hc Hi Hr. unfold json_attempts, json_attempts_gen. rewrite Hi. apply in_or_app. right. apply in_or_app. right.
-    apply in_or_app. left. apply int_attempts_in; assumption.
+    intros co sk dv c i Hc Hnt Hin Hi Hr. destruct (steps_complete_parts co sk Hc) as [_ [_ [H _]]].
+    destruct (H Hnt) as [_ H2].
+    eapply steps_try; [exact H2| |].
+    - unfold read_src. rewrite Hi. reflexivity.
+    - unfold attempt_dyns, fam_attempt. cbn [at_fam at_conv fam_cols]. apply int_attempts_in; assumption.
   Qed.
-  Lemma native_tries : forall cols nat_view c p, In c cols -> lookup (col_type c) nat_view = Some (Some p) ->
-    In (typed c p) (native_attempts cols nat_view).
+  Lemma steps_try_plain : forall co sk dv s, steps_complete co sk = true -> dv_str dv = Some s ->
+    In (DStr s) (skel_attempts t dv sk).
   Proof.
-    intros cols nat_view c p Hc Hl. unfold native_attempts. apply in_flat_map. exists c. split; [assumption|].
-    rewrite Hl. left. reflexivity.
+    intros co sk dv s Hc Hs. destruct (steps_complete_parts co sk Hc) as [Hn _].
+    destruct (name_first_inv sk Hn) as [pre [cv [body [rest [_ ->]]]]].
+    rewrite skel_attempts_app. apply in_or_app. right. rewrite skel_attempts_cons. apply in_or_app. left.
+    cbn [step_dyns gate_open]. unfold read_src. rewrite Hs. cbn [flat_map attempt_dyns at_fam src_type].
+    apply in_or_app. left. left. reflexivity.
   Qed.
-  Lemma json_tries_native : forall c jv p, In c (family_own t ti_json_own) ->
-    lookup (col_type c) (jv_native jv) = Some (Some p) -> In (typed c p) (json_attempts t jv).
+  Lemma steps_try_own : forall co sk dv c p, steps_complete co sk = true ->
+    In c (family_own t (own_of co)) -> lookup (col_type c) (dv_native dv) = Some (Some p) ->
+    In (typed c p) (skel_attempts t dv sk).
   Proof.
-    intros c jv p Hc Hl. unfold json_attempts, json_attempts_gen. apply in_or_app. right. apply in_or_app. right.
-    apply in_or_app. right. apply native_tries; assumption.
-  Qed.
-  Lemma yaml_tries_string : forall c yv, In c (family t KString ti_yaml_own) ->
-    In (typed c (PStr (yv_value yv))) (yaml_attempts_gen true t yv).
-  Proof.
-    intros c yv Hc. unfold yaml_attempts_gen, yaml_attempts_gen2. right. apply in_or_app. left. apply in_map_iff. exists c. split; [reflexivity|assumption].
-  Qed.
-  Lemma yaml_tries_uint : forall c yv u, In c (family t KUint64 ti_yaml_own) -> yv_u64 yv = Some u ->
-    conv_int (ti_bkind (col_info c)) u = u -> In (typed_int c u) (yaml_attempts_gen true t yv).
-  Proof.
-    intros c yv u Hc Hu Hr. unfold yaml_attempts_gen, yaml_attempts_gen2. rewrite Hu. right. apply in_or_app. right.
-    apply in_or_app. left. apply int_attempts_in; assumption.
-  Qed.
-  Lemma yaml_tries_int : forall c yv i, In c (family t KInt64 ti_yaml_own) -> yv_i64 yv = Some i ->
-    conv_int (ti_bkind (col_info c)) i = i -> In (typed_int c i) (yaml_attempts_gen true t yv).
-  Proof.
-    intros c yv i Hc Hi Hr. unfold yaml_attempts_gen, yaml_attempts_gen2. rewrite Hi. right. apply in_or_app. right.
-    apply in_or_app. right. apply in_or_app. left. apply int_attempts_in; assumption.
-  Qed.
-  Lemma yaml_tries_native : forall c yv p, In c (family_own t ti_yaml_own) ->
-    lookup (col_type c) (yv_native yv) = Some (Some p) -> In (typed c p) (yaml_attempts_gen true t yv).
-  Proof.
-    intros c yv p Hc Hl. unfold yaml_attempts_gen, yaml_attempts_gen2. right. apply in_or_app. right. apply in_or_app. right.
-    apply in_or_app. right. apply native_tries; assumption.
-  Qed.
-  Lemma text_tries_string : forall c tv, In c (family t KString ti_text_own) ->
-    In (typed c (PStr (tv_text tv))) (text_attempts t tv).
-  Proof.
-    intros c tv Hc. unfold text_attempts. right. apply in_or_app. left. apply in_map_iff. exists c. split; [reflexivity|assumption].
-  Qed.
-  Lemma text_tries_native : forall c tv p, In c (family_own t ti_text_own) ->
-    lookup (col_type c) (tv_native tv) = Some (Some p) -> In (typed c p) (text_attempts t tv).
-  Proof.
-    intros c tv p Hc Hl. unfold text_attempts. right. apply in_or_app. right. apply native_tries; assumption.
+    intros co sk dv c p Hc Hin Hl. destruct (steps_complete_parts co sk Hc) as [_ [_ [_ H]]].
+    eapply steps_try_native; eassumption.
   Qed.
 
   (* decoding a document that holds the trait constant of row r (as one of the readings the
      decoder tries) returns the owning value *)
+  Lemma decode_trait_steps : forall sk dv c r, In c (t_cols t) -> col_parsable c = true -> In r (col_rows c) ->
+    dv_null dv = false ->
+    In (cl_val (r_cell r)) (skel_attempts t dv sk) -> unambiguous (skel_attempts t dv sk) (g_z (r_owner r)) ->
+    run_steps (sem_parse t) t dv sk = Some (g_z (r_owner r)).
+  Proof.
+    intros sk dv c r Hc Hp Hr Hnn Hin Hu. rewrite run_steps_attempts by assumption.
+    eapply try_all_unique; [exact Hin|apply (parse_trait_row c r Hc Hp Hr)|exact Hu].
+  Qed.
+
+  (* for every well-formed skeleton record *)
+  Lemma decode_trait_json_sk : forall k, skels_ok k = true ->
+    forall c r jv, In c (t_cols t) -> col_parsable c = true -> In r (col_rows c) ->
+    jv_null jv = false ->
+    In (cl_val (r_cell r)) (json_attempts_sk k t jv) -> unambiguous (json_attempts_sk k t jv) (g_z (r_owner r)) ->
+    decode_json_sk k t jv = Some (g_z (r_owner r)).
+  Proof.
+    intros k Hk c r jv Hc Hp Hr Hnn Hin Hu. rewrite decode_json_sk_parse by assumption.
+    apply (decode_trait_steps _ (dv_of_j jv) c r); assumption.
+  Qed.
+  Lemma decode_trait_yaml_sk : forall k, skels_ok k = true ->
+    forall c r yv, In c (t_cols t) -> col_parsable c = true -> In r (col_rows c) ->
+    yv_scalar yv = true ->
+    In (cl_val (r_cell r)) (yaml_attempts_sk k t yv) -> unambiguous (yaml_attempts_sk k t yv) (g_z (r_owner r)) ->
+    decode_yaml_sk k t yv = Some (g_z (r_owner r)).
+  Proof.
+    intros k Hk c r yv Hc Hp Hr Hsc Hin Hu. rewrite decode_yaml_sk_parse by assumption.
+    apply (decode_trait_steps _ (dv_of_y yv) c r); try assumption. simpl. rewrite Hsc. reflexivity.
+  Qed.
+  Lemma decode_trait_text_sk : forall k, skels_ok k = true ->
+    forall c r tv, In c (t_cols t) -> col_parsable c = true -> In r (col_rows c) ->
+    In (cl_val (r_cell r)) (text_attempts_sk k t tv) -> unambiguous (text_attempts_sk k t tv) (g_z (r_owner r)) ->
+    decode_text_sk k t tv = Some (g_z (r_owner r)).
+  Proof.
+    intros k Hk c r tv Hc Hp Hr Hin Hu. rewrite decode_text_sk_parse by assumption.
+    apply (decode_trait_steps _ (dv_of_t tv) c r); try assumption. reflexivity.
+  Qed.
+
   Lemma decode_trait_json : forall c r jv, In c (t_cols t) -> col_parsable c = true -> In r (col_rows c) ->
     jv_null jv = false ->
     In (cl_val (r_cell r)) (json_attempts t jv) -> unambiguous (json_attempts t jv) (g_z (r_owner r)) ->
     decode_json t jv = Some (g_z (r_owner r)).
-  Proof.
-    intros c r jv Hc Hp Hr Hnn Hin Hu. unfold decode_json. rewrite Hnn.
-    eapply try_all_unique; [exact Hin|apply (parse_trait_row c r Hc Hp Hr)|exact Hu].
-  Qed.
+  Proof. exact (decode_trait_json_sk cur_skels cur_skels_ok). Qed.
   Lemma decode_trait_yaml : forall c r yv, In c (t_cols t) -> col_parsable c = true -> In r (col_rows c) ->
-    In (cl_val (r_cell r)) (yaml_attempts_gen true t yv) -> unambiguous (yaml_attempts_gen true t yv) (g_z (r_owner r)) ->
+    yv_scalar yv = true ->
+    In (cl_val (r_cell r)) (yaml_attempts t yv) -> unambiguous (yaml_attempts t yv) (g_z (r_owner r)) ->
     decode_yaml t yv = Some (g_z (r_owner r)).
-  Proof.
-    intros c r yv Hc Hp Hr Hin Hu. unfold decode_yaml.
-    eapply try_all_unique; [exact Hin|apply (parse_trait_row c r Hc Hp Hr)|exact Hu].
-  Qed.
+  Proof. exact (decode_trait_yaml_sk cur_skels cur_skels_ok). Qed.
   Lemma decode_trait_text : forall c r tv, In c (t_cols t) -> col_parsable c = true -> In r (col_rows c) ->
     In (cl_val (r_cell r)) (text_attempts t tv) -> unambiguous (text_attempts t tv) (g_z (r_owner r)) ->
     decode_text t tv = Some (g_z (r_owner r)).
-  Proof.
-    intros c r tv Hc Hp Hr Hin Hu. unfold decode_text.
-    eapply try_all_unique; [exact Hin|apply (parse_trait_row c r Hc Hp Hr)|exact Hu].
-  Qed.
+  Proof. exact (decode_trait_text_sk cur_skels cur_skels_ok). Qed.
 End Traits.
 
 (* ---- before the range check (fix C05-numeric-trait-range-check): a parsable uint8 trait
@@ -1583,7 +1927,7 @@ Definition nw_defn : defn :=
 Definition nw_opts : opts :=
   {| o_json := true; o_yaml := true; o_text := true; o_ci := false; o_notraits := false; o_parsable := ["Code"] |}.
 Definition nw_json (z : Z) : jview := {| jv_null := false; jv_string := None; jv_u64 := Some z; jv_i64 := Some z; jv_native := [] |}.
-Definition nw_yaml (z : Z) : yview := {| yv_value := dec z; yv_u64 := Some z; yv_i64 := Some z; yv_native := [] |}.
+Definition nw_yaml (z : Z) : yview := {| yv_scalar := true; yv_value := dec z; yv_u64 := Some z; yv_i64 := Some z; yv_native := [] |}.
 
 Lemma decode_norc_refuted :
   exists t, gen nw_defn nw_opts = Built t
@@ -1602,7 +1946,7 @@ Lemma decode_null_refuted :
 Proof. eexists. split; [vm_compute; reflexivity|]. vm_compute. split; reflexivity. Qed.
 
 Lemma decode_json_null : forall t jv, jv_null jv = true -> decode_json t jv = None.
-Proof. intros t jv H. unfold decode_json. rewrite H. reflexivity. Qed.
+Proof. intros t jv H. apply (decode_json_null_sk cur_skels cur_skels_ok t jv H). Qed.
 
 (* ---- a parsable plain-string trait that spells the value's own name (fix C12-parsable-trait-equals-name) *)
 Definition on_defn : defn :=
@@ -1626,3 +1970,119 @@ Lemma own_name_trait :
              /\ sem_parse t (DStr "Red") = Some 0 /\ sem_parse t (DStr "blu") = Some 1)
   /\ gen on_clash on_opts = GenErr.
 Proof. split; [eexists; split; [vm_compute; reflexivity|vm_compute; split; reflexivity]|vm_compute; reflexivity]. Qed.
+
+(* ================================================================== Part 6: every well-formed skeleton record *)
+(* Parse<T> and the small functions interpreted over a skeleton record accepted by skels_ok are the
+   functions Parts 3-5 are about *)
+Section SkelSmall.
+  Variable k : skels.
+  Hypothesis Hk : skels_ok k = true.
+
+  Lemma small_facts :
+    sk_enc_json k = EncJSONOfString /\ sk_enc_text k = EncBytesOfString /\ sk_enc_yaml k = EncString
+    /\ sk_table k = TblNames VsDedup /\ sk_values k = ValCloneOfTable /\ sk_stringvalues k = TblNames VsDedup
+    /\ sk_string k = StrSwitch VsDedup "Undefined" ":%d"
+    /\ sk_isvalid k = IvThreshold VsAll 15 MemBinarySearch MemLinear
+    /\ sk_accessor k = AccSwitchRowsElseZero
+    /\ sk_parsestring k = true /\ sk_parsegeneric k = true.
+  Proof.
+    destruct (skels_ok_parts k Hk) as [_ [_ [_ [_ H]]]]. unfold small_ok in H.
+    repeat match goal with X : _ && _ = true |- _ => apply andb_true_iff in X; destruct X end.
+    repeat match goal with
+           | X : enc_eqb ?a _ = true |- _ => destruct a; try discriminate X; clear X
+           end.
+    destruct (sk_table k) as [[]|]; try discriminate.
+    destruct (sk_values k); try discriminate.
+    destruct (sk_stringvalues k) as [[]|]; try discriminate.
+    destruct (sk_string k) as [[] pre suf|]; try discriminate.
+    destruct (sk_isvalid k) as [vs n above below|]; try discriminate.
+    destruct vs; try discriminate.
+    do 15 (destruct n as [|n]; try discriminate). destruct n; try discriminate.
+    destruct above; try discriminate. destruct below; try discriminate.
+    destruct (sk_accessor k); try discriminate.
+    repeat match goal with X : _ && _ = true |- _ => apply andb_true_iff in X; destruct X end.
+    repeat match goal with X : String.eqb _ _ = true |- _ => apply String.eqb_eq in X; subst end.
+    repeat split; try reflexivity; assumption.
+  Qed.
+
+  Lemma sem_parse_sk_eq : forall t x, sem_parse_sk (sk_parse k) t x = sem_parse t x.
+  Proof. intros t x. apply sem_parse_sk_ok. apply (skels_ok_parts k Hk). Qed.
+  Lemma sem_values_sk_eq : forall t, sem_values_sk k t = sem_values t.
+  Proof.
+    intros t. destruct small_facts as [_ [_ [_ [Ht [Hv _]]]]]. unfold sem_values_sk. rewrite Hv, Ht. reflexivity.
+  Qed.
+  Lemma sem_stringvalues_sk_eq : forall t, sem_stringvalues_sk k t = sem_stringvalues t.
+  Proof.
+    intros t. destruct small_facts as [_ [_ [_ [_ [_ [Hs _]]]]]]. unfold sem_stringvalues_sk. rewrite Hs. reflexivity.
+  Qed.
+  Lemma sem_string_sk_eq : forall t e, sem_string_sk k t e = sem_string t e.
+  Proof.
+    intros t e. destruct small_facts as [_ [_ [_ [_ [_ [_ [Hs _]]]]]]]. unfold sem_string_sk, sem_string. rewrite Hs.
+    cbn [vs_list]. destruct (find _ (t_dedup t)); reflexivity.
+  Qed.
+  Lemma sem_accessor_sk_eq : forall c e, sem_accessor_sk k c e = sem_accessor c e.
+  Proof.
+    intros c e. destruct small_facts as [_ [_ [_ [_ [_ [_ [_ [_ [Ha _]]]]]]]]]. unfold sem_accessor_sk. rewrite Ha. reflexivity.
+  Qed.
+  Lemma encode_json_sk_eq : forall t e, encode_json_sk k t e = encode_json t e.
+  Proof.
+    intros t e. destruct small_facts as [H _]. unfold encode_json_sk, encode_json. rewrite H, sem_string_sk_eq. reflexivity.
+  Qed.
+  Lemma encode_text_sk_eq : forall t e, encode_text_sk k t e = encode_text t e.
+  Proof.
+    intros t e. destruct small_facts as [_ [H _]]. unfold encode_text_sk, encode_text. rewrite H, sem_string_sk_eq. reflexivity.
+  Qed.
+  Lemma encode_yaml_sk_eq : forall t e, encode_yaml_sk k t e = encode_yaml t e.
+  Proof.
+    intros t e. destruct small_facts as [_ [_ [H _]]]. unfold encode_yaml_sk, encode_yaml. rewrite H, sem_string_sk_eq. reflexivity.
+  Qed.
+  Lemma sem_isvalid_sk_eq : forall d o t e, gen d o = Built t -> sem_isvalid_sk k t e = sem_isvalid t e.
+  Proof.
+    intros d o t e Hg. destruct small_facts as [_ [_ [_ [_ [_ [_ [_ [Hi _]]]]]]]].
+    unfold sem_isvalid_sk, sem_isvalid. rewrite Hi, sem_values_sk_eq. cbn [vs_list].
+    destruct (gen_built d o t Hg) as [Hall [_ [_ [_ [Hb _]]]]].
+    rewrite Hb, Hall, sort_values_length. destruct (Nat.ltb 15 (length (d_consts d))); reflexivity.
+  Qed.
+End SkelSmall.
+
+(* encoders over a well-formed skeleton record *)
+Lemma encode_json_sk_spec : forall k, skels_ok k = true -> forall d o t, wf_defn d -> gen d o = Built t ->
+  forall v, encode_json_sk k t v = quote (string_spec d v).
+Proof. intros k Hk d o t Hwf Hg v. rewrite (encode_json_sk_eq k Hk). apply (encode_json_spec d o t Hwf Hg). Qed.
+Lemma encode_text_sk_spec : forall k, skels_ok k = true -> forall d o t, wf_defn d -> gen d o = Built t ->
+  forall v, encode_text_sk k t v = string_spec d v.
+Proof. intros k Hk d o t Hwf Hg v. rewrite (encode_text_sk_eq k Hk). apply (encode_text_spec d o t Hwf Hg). Qed.
+Lemma encode_yaml_sk_spec : forall k, skels_ok k = true -> forall d o t, wf_defn d -> gen d o = Built t ->
+  forall v, encode_yaml_sk k t v = string_spec d v.
+Proof. intros k Hk d o t Hwf Hg v. rewrite (encode_yaml_sk_eq k Hk). apply (encode_yaml_spec d o t Hwf Hg). Qed.
+
+(* ---- before fix C05-yaml-nonscalar-rejected: a parsable string trait with value "" and the YAML
+   sequence `[1, 2]` (node.Value = "") *)
+Definition es_cell (var s : string) : cell :=
+  {| cl_var := var; cl_expr := quote s; cl_val := DStr s |}.
+Definition es_defn : defn :=
+  {| d_ty := {| ty_name := "E0"; ty_signed := true; ty_bits := 64 |};
+     d_consts := [ {| c_name := "A"; c_val := 0; c_dep := false; c_cells := [es_cell "_Label" ""] |};
+                   {| c_name := "B"; c_val := 1; c_dep := false; c_cells := [es_cell "_" "b"] |} ];
+     d_types := [("string", {| ti_bkind := BUntypedString; ti_json_own := false; ti_yaml_own := false; ti_text_own := false |})] |}.
+Definition es_opts : opts :=
+  {| o_json := true; o_yaml := true; o_text := true; o_ci := false; o_notraits := false; o_parsable := ["Label"] |}.
+Definition es_seq : yview := {| yv_scalar := false; yv_value := ""; yv_u64 := None; yv_i64 := None; yv_native := [] |}.
+Lemma decode_yaml_anykind_refuted :
+  exists t, gen es_defn es_opts = Built t
+            /\ decode_yaml_anykind t es_seq = Some 0 /\ decode_yaml t es_seq = None.
+Proof. eexists. split; [vm_compute; reflexivity|]. vm_compute. split; reflexivity. Qed.
+
+(* the functions interpreted over a well-formed skeleton record are the functions of Parts 3-5 *)
+Lemma skel_functions : forall k, skels_ok k = true -> forall d o t, gen d o = Built t ->
+  sem_values_sk k t = sem_values t /\ sem_stringvalues_sk k t = sem_stringvalues t
+  /\ (forall e, sem_isvalid_sk k t e = sem_isvalid t e) /\ (forall e, sem_string_sk k t e = sem_string t e)
+  /\ (forall x, sem_parse_sk (sk_parse k) t x = sem_parse t x)
+  /\ sk_parsestring k = true /\ sk_parsegeneric k = true.
+Proof.
+  intros k Hk d o t Hg. split; [apply sem_values_sk_eq; assumption|]. split; [apply sem_stringvalues_sk_eq; assumption|].
+  split; [intros e; apply (sem_isvalid_sk_eq k Hk d o t e Hg)|]. split; [intros e; apply sem_string_sk_eq; assumption|].
+  split; [intros x; apply sem_parse_sk_eq; assumption|]. apply (small_facts k Hk).
+Qed.
+Lemma skel_accessor : forall k, skels_ok k = true -> forall c e, sem_accessor_sk k c e = sem_accessor c e.
+Proof. intros k Hk c e. apply sem_accessor_sk_eq. assumption. Qed.
